@@ -51,12 +51,15 @@ def validate_exec_traces(ctx, execs, invs, name=None):
     traces, scens, skipped = [], [], 0
     for e in execs:
         try:
-            t = exec_trace.convert(e)
+            ts, sk = exec_trace.convert_all(e)
         except exec_trace.Unsupported:
             skipped += 1
             continue
-        traces.append(t)
-        scens.append(scen_of(e))
+        skipped += sk
+        for t in ts:
+            traces.append(t)
+            scens.append(scen_of(e))
+    ctx.notes["exec_traces_reinvocations"] = sum(1 for t in traces if t["cf"]["pre"])
     ctx.notes["exec_traces_skipped"] = skipped
     if not traces:
         return
